@@ -6,7 +6,7 @@ mkdir -p $work/verif
    expected_obligations.json properties.jsonl $work/verif/)
 mkdir -p $work/verif/evidence $work/verif/replays
 bad=0
-for d in /verif/benign/b*.diff; do
+for d in ${BENIGN_ONLY:-/verif/benign/b*.diff}; do
   n=$(basename $d .diff)
   rm -rf $work/repo; mkdir -p $work/repo; cp -r /repo/file_builder $work/repo/
   (cd $work/repo && patch -p1 -s < $d) || { echo "$n APPLY-FAILED"; bad=1; continue; }
